@@ -165,6 +165,28 @@ func genTypes(repo, out string) {
 		})
 	}
 	fmt.Fprintf(&b, "/-- byte patterns `DateTime.UnmarshalUT0311L0x` maps to the zero value -/\ndef dateTimeZeroPatterns : List String := [%s]\n", strings.Join(sentinels, ", "))
+	// the width guard of the three encoders whose digits come from formatting a value: `len(*encoded) != N` ⇒ error
+	// (0 = no such guard: the encoder returns whatever the formatted digits fill)
+	{
+		lenRe := regexp.MustCompile(`^len\(\*encoded\) != (\d+)$`)
+		guards := []string{}
+		for _, t := range []struct{ file, recv string }{{"types/date.go", "Date"}, {"types/datetime.go", "DateTime"}, {"types/HHmm.go", "HHmm"}} {
+			n := "0"
+			fn := findFunc(parseFile(filepath.Join(repo, t.file)), "MarshalUT0311L0x", t.recv)
+			if fn != nil {
+				ast.Inspect(fn.Body, func(x ast.Node) bool {
+					if is, ok := x.(*ast.IfStmt); ok {
+						if m := lenRe.FindStringSubmatch(src(is.Cond)); m != nil && returnsError(is.Body) {
+							n = m[1]
+						}
+					}
+					return true
+				})
+			}
+			guards = append(guards, fmt.Sprintf("(%s, %s)", leanStr(t.recv), n))
+		}
+		fmt.Fprintf(&b, "/-- `MarshalUT0311L0x` of these types refuses a value whose digits do not fill exactly this many bytes -/\ndef marshalWidthGuards : List (String × Nat) := [%s]\n", strings.Join(guards, ", "))
+	}
 	b.WriteString("end Uhppote.Gen.Types\n")
 	writeIfChanged(filepath.Join(out, "Types.lean"), b.String())
 }
